@@ -98,25 +98,36 @@ Proof.
     + intros y [->|Hy]; auto.
     + intros ND; inversion ND; subst. constructor; auto.
 Qed.
+Lemma NoDup_app_r : forall (g d : list Z), NoDup (g ++ d) -> NoDup d.
+Proof. induction g; simpl; intros d H; auto. inversion H; auto. Qed.
+Lemma NoDup_snoc : forall (l : list Z) x, NoDup l -> ~ In x l -> NoDup (l ++ [x]).
+Proof.
+  induction l; simpl; intros x ND Hx; [constructor; auto; constructor|].
+  inversion ND; subst. constructor.
+  - intro H. apply in_app_or in H. destruct H as [H|[->|[]]]; auto.
+  - apply IHl; auto.
+Qed.
 Lemma NoDup_delslice : forall (l : list Z) sl d, NoDup l -> py_delslice l sl = Ok d -> NoDup d.
 Proof.
   intros l sl d ND H.
   destruct (py_getslice l sl) as [g|e] eqn:G.
   - pose proof (getslice_delslice_perm Z l sl g d G H) as P.
-    eapply Permutation_NoDup in ND; [|exact P]. apply NoDup_app_remove_l in ND; auto.
+    eapply Permutation_NoDup in ND; [|exact P]. apply NoDup_app_r in ND; auto.
   - apply getslice_delslice_same_error in G. congruence.
+Qed.
+Lemma In_set_nth : forall n (l : list Z) y z, In z (set_nth n y l) -> z = y \/ In z l.
+Proof.
+  induction n; destruct l as [|a l]; simpl; intros y w H; auto.
+  - destruct H; auto.
+  - destruct H; auto. destruct (IHn _ _ _ H); auto.
 Qed.
 Lemma NoDup_set_nth : forall n (l : list Z) x, NoDup l -> ~ In x l -> NoDup (set_nth n x l).
 Proof.
   induction n; destruct l; simpl; intros y ND Hy; auto; inversion ND; subst.
-  - constructor; auto. intro; apply Hy; right; auto.
+  - constructor; auto; intro; apply Hy; right; auto.
   - constructor.
-    + intro Hin. assert (In z l \/ z = y).
-      { clear -Hin. revert n Hin. induction l; destruct n; simpl; intros; auto.
-        - destruct Hin; auto.
-        - destruct Hin; auto. destruct (IHl _ H); auto. }
-      destruct H as [H| ->]; auto. apply Hy; left; auto.
-    + apply IHn; auto. intro; apply Hy; right; auto.
+    + intro Hin. destruct (In_set_nth _ _ _ _ Hin) as [->|H]; auto.
+    + apply IHn; auto.
 Qed.
 Lemma nth_set_nth : forall n (l : list Z) x k, (n < length l)%nat ->
   nth_error (set_nth n x l) k = if Nat.eqb k n then Some x else nth_error l k.
@@ -142,9 +153,7 @@ Proof.
       unfold OrderingList.order_entity, zlen. destruct HR as [->|HN].
       * destruct (pos s e); rewrite set_pos_same; reflexivity.
       * rewrite HN, set_pos_same; reflexivity.
-  - simpl. apply NoDup_app; auto.
-    + constructor; auto. constructor.
-    + intros x Hx [->|[]]. auto.
+  - simpl. apply NoDup_snoc; auto.
 Qed.
 
 Lemma good_insert : forall s i e, NoDup (items s) -> ~ In e (items s) -> Good (ol_insert base s i e).
@@ -301,8 +310,8 @@ Qed.
 Lemma combine_snd_fresh : forall (rng v : list Z) l, fresh_all v l = true ->
   length v = length rng -> fresh_all (map snd (combine rng v)) l = true.
 Proof.
-  intros rng v l F E. assert (map snd (combine rng v) = v).
-  { revert v E. induction rng; destruct v; simpl; intros; try discriminate; auto. f_equal; auto. }
+  intros rng v l F E. assert (H : forall (r w : list Z), length w = length r -> map snd (combine r w) = w).
+  { induction r; destruct w; simpl; intros; try discriminate; auto. f_equal; auto. }
   rewrite H; auto.
 Qed.
 
@@ -359,7 +368,7 @@ Proof.
   - apply good_reordered; auto.
 Qed.
 
-Theorem positions_eq_indices : forall ops s, Good s -> ol_guarded roa true ops s = true ->
+Theorem positions_eq_indices : forall ops s, Good s -> ol_guarded base roa true ops s = true ->
   Good (ol_run base roa true ops s).
 Proof.
   induction ops as [|o r IH]; intros s G H; simpl in *; auto.
